@@ -218,81 +218,23 @@ func init() {
 						key := fmt.Sprintf("%s|%s[%d]#%d", funcName(fn), shortType(ia.X.Type()), k, n)
 						n++
 						what := "constant index into a decoded collection is guarded by its length"
-						var permits []edge
-						for _, bb := range fn.Blocks {
-							if len(bb.Instrs) == 0 {
-								continue
-							}
-							ifi, ok := bb.Instrs[len(bb.Instrs)-1].(*ssa.If)
+						permits := lenGuardEdges(fn, ia.X, k)
+						// a validating helper of the package that rejects a collection with ≤ k elements
+						eachCall(fn, func(hc ssa.CallInstruction) {
+							call, ok := hc.(*ssa.Call)
 							if !ok {
-								continue
+								return
 							}
-							bo, ok := ifi.Cond.(*ssa.BinOp)
-							if !ok {
-								continue
+							h := call.Call.StaticCallee()
+							if h == nil || len(h.Blocks) == 0 || fnPkgPath(h) != fnPkgPath(fn) || errorResultIndex(h.Signature) < 0 {
+								return
 							}
-							var c int64
-							var op token.Token
-							if x, okx := lenOperand(bo.X); okx && sameObject(x, ia.X) {
-								cc, okc := constInt(stripConv(bo.Y))
-								if !okc {
-									continue
-								}
-								c, op = cc, bo.Op
-							} else if y, oky := lenOperand(bo.Y); oky && sameObject(y, ia.X) {
-								cc, okc := constInt(stripConv(bo.X))
-								if !okc {
-									continue
-								}
-								c = cc
-								switch bo.Op {
-								case token.LSS:
-									op = token.GTR
-								case token.LEQ:
-									op = token.GEQ
-								case token.GTR:
-									op = token.LSS
-								case token.GEQ:
-									op = token.LEQ
-								default:
-									op = bo.Op
-								}
-							} else {
-								continue
-							}
-							switch op {
-							case token.EQL:
-								if c == 0 && k == 0 {
-									permits = append(permits, edge{bb, 1})
-								}
-								if c > k {
-									permits = append(permits, edge{bb, 0})
-								}
-							case token.NEQ:
-								if c == 0 && k == 0 {
-									permits = append(permits, edge{bb, 0})
-								}
-								if c > k {
-									permits = append(permits, edge{bb, 1})
-								}
-							case token.GTR:
-								if c >= k {
-									permits = append(permits, edge{bb, 0})
-								}
-							case token.GEQ:
-								if c > k {
-									permits = append(permits, edge{bb, 0})
-								}
-							case token.LSS:
-								if c > k {
-									permits = append(permits, edge{bb, 1})
-								}
-							case token.LEQ:
-								if c >= k {
-									permits = append(permits, edge{bb, 1})
+							for ai, a := range call.Call.Args {
+								if ai < len(h.Params) && sameObject(a, ia.X) && longerThanOnSuccess(h, ai, k) {
+									permits = append(permits, successEdges(fn, call)...)
 								}
 							}
-						}
+						})
 						// range loops over the slice bound the index by construction: a constant index
 						// inside `for range x` is still a constant index, so only explicit tests count
 						if path, reach := reachAfter(fn, nil, ia, mkCut(permits), nil); reach {
@@ -585,4 +527,109 @@ func rawErrorReaches(fn *ssa.Function, call *ssa.Call, ret *ssa.Return, v ssa.Va
 		return nil, false
 	}
 	return reachAfter(fn, call, ret, notEOF, nil)
+}
+
+// lenGuardEdges: the edges of fn on which len(obj) > k is known from a comparison of
+// len(obj) with a constant.
+func lenGuardEdges(fn *ssa.Function, obj ssa.Value, k int64) []edge {
+	var permits []edge
+	for _, bb := range fn.Blocks {
+		if len(bb.Instrs) == 0 {
+			continue
+		}
+		ifi, ok := bb.Instrs[len(bb.Instrs)-1].(*ssa.If)
+		if !ok {
+			continue
+		}
+		bo, ok := ifi.Cond.(*ssa.BinOp)
+		if !ok {
+			continue
+		}
+		var c int64
+		var op token.Token
+		if x, okx := lenOperand(bo.X); okx && sameObject(x, obj) {
+			cc, okc := constInt(stripConv(bo.Y))
+			if !okc {
+				continue
+			}
+			c, op = cc, bo.Op
+		} else if y, oky := lenOperand(bo.Y); oky && sameObject(y, obj) {
+			cc, okc := constInt(stripConv(bo.X))
+			if !okc {
+				continue
+			}
+			c = cc
+			switch bo.Op {
+			case token.LSS:
+				op = token.GTR
+			case token.LEQ:
+				op = token.GEQ
+			case token.GTR:
+				op = token.LSS
+			case token.GEQ:
+				op = token.LEQ
+			default:
+				op = bo.Op
+			}
+		} else {
+			continue
+		}
+		switch op {
+		case token.EQL:
+			if c == 0 && k == 0 {
+				permits = append(permits, edge{bb, 1})
+			}
+			if c > k {
+				permits = append(permits, edge{bb, 0})
+			}
+		case token.NEQ:
+			if c == 0 && k == 0 {
+				permits = append(permits, edge{bb, 0})
+			}
+			if c > k {
+				permits = append(permits, edge{bb, 1})
+			}
+		case token.GTR:
+			if c >= k {
+				permits = append(permits, edge{bb, 0})
+			}
+		case token.GEQ:
+			if c > k {
+				permits = append(permits, edge{bb, 0})
+			}
+		case token.LSS:
+			if c > k {
+				permits = append(permits, edge{bb, 1})
+			}
+		case token.LEQ:
+			if c >= k {
+				permits = append(permits, edge{bb, 1})
+			}
+		}
+	}
+	return permits
+}
+
+// longerThanOnSuccess: every successful return of the helper h is reachable only
+// through an edge on which len(parameter i) > k is known.
+func longerThanOnSuccess(h *ssa.Function, i int, k int64) bool {
+	if i >= len(h.Params) {
+		return false
+	}
+	permits := lenGuardEdges(h, h.Params[i], k)
+	if len(permits) == 0 {
+		return false
+	}
+	ei := errorResultIndex(h.Signature)
+	n := 0
+	for _, ret := range returnsOf(h) {
+		if v := retVal(ret, ei); v != nil && (definitelyNonNilError(v) || nonNilByGuard(h, ret, v)) {
+			continue
+		}
+		n++
+		if _, reach := reachAfter(h, nil, ret, mkCut(permits), nil); reach {
+			return false
+		}
+	}
+	return n > 0
 }
